@@ -2032,6 +2032,11 @@ impl<'a, const C: usize, const R: usize, T: 'a + Copy + std::fmt::Debug> Layout<
                 return ret;
             }
             Switch(sw) => {
+                // A transparent case continues the search below the layer that this switch is on.
+                // That position is only known here: the case actions run later, from the action
+                // queue, where `_` would be searched for from the top again and could find this
+                // very switch, which would then queue itself again on every tick.
+                let below_this_switch = self.resolve_coord(coord, &mut layer_stack.clone());
                 let active_keys = self.states.iter().filter_map(State::keycode);
                 let active_coords = self.states.iter().filter_map(State::coord);
                 let historical_keys = self.historical_keys.iter_hevents();
@@ -2048,6 +2053,10 @@ impl<'a, const C: usize, const R: usize, T: 'a + Copy + std::fmt::Debug> Layout<
                     // assertions.
                     self.default_layer as u16,
                 ) {
+                    let ac = match ac {
+                        Trans => below_this_switch,
+                        _ => ac,
+                    };
                     action_queue.push_back(Some((coord, 0, ac)));
                 }
                 // Switch is not properly repeatable. This has to use the action queue for the
